@@ -828,6 +828,10 @@ func (r *reader) read(src []byte) {
 			r.pushChar(src)
 		case intMode:
 			r.pushInteger(src)
+		case sharpMode, sharpNumMode, mustArrayMode:
+			r.partial("# macro not terminated")
+		case blockCommentMode, blockEndMode:
+			r.partial("block comment not terminated")
 		}
 		if 0 < len(r.stack) {
 			r.partial("list not terminated")
